@@ -49,6 +49,25 @@ CLAIMED = {
             "trusted: python ast; numpy/h5py store values faithfully; legacy (deprecated) formats checked for key agreement "
             "only; one known finding (MpoPBC.tol) listed in known_findings.json",
             "DESIGN.md §4 C17"),
+    "C20": ("geomtab",
+            "constant-table algebra and key-expression agreement read from the AST + CFG dominance of rejection guards",
+            "Partial: decides the structural necessary conditions of a consistent lattice indexing for all sizes at once — the "
+            "direction table is antisymmetric/compositional, nn_bond_dirn pairs each direction with its opposite and label, "
+            "nn_site applies one boundary rule per axis, bonds are generated in lattice order, every site2index reduces each "
+            "coordinate modulo the period of its own axis, Lattice get/set/patch/init use the same key expression, and the "
+            "rejection guards dominate construction. The enumerated value-level invariants (each site once, total order) are "
+            "NOT decided.",
+            "trusted: python ast; some sub-rules compare normalised source text of short expressions (comparison forms)",
+            "DESIGN.md §4 C20"),
+    "C13": ("orderdir",
+            "order-direction abstract interpretation of argsort index arrays and their slices; def-use of the keep-count",
+            "Partial: decides that what truncation_mask / truncation_mask_multiplets mask off is the low end of an ordering of "
+            "the spectrum (block stage: of the very block written; global stage: of the already masked spectrum), that the "
+            "keep-count is min(user limit, number strictly above relative tolerance), that K==0 cannot reach the empty slice "
+            "[:-0], that the spectrum is copied first, and that the wrappers apply one mask to all factors. The Eckart-Young "
+            "optimality/error identity itself is numerical and NOT decided.",
+            "trusted: argsort is ascending; python ast",
+            "DESIGN.md §4 C13"),
 }
 
 NOT_APPLICABLE = {
